@@ -192,6 +192,7 @@ def make_step(lf, sizes, max_k, max_nl, via_mode, twin=False):
         b = pick(b, a, n)
         k = pick(k, 0, max_k)
         removed = [ref[i] for i in range(a, b)]
+        api(store, ref)      # every query is asked BEFORE the operation too: whatever the store memoises is part of the pre-state
         ref2 = apply_op(store, ref, a, b, new, via)
         if twin:
             raise Fail('twin reached the assertion point')
@@ -202,6 +203,44 @@ def make_step(lf, sizes, max_k, max_nl, via_mode, twin=False):
 
     return 'step_%d_%s_k%d_nl%d_%s%s' % (lf, '_'.join(map(str, sizes)), max_k, max_nl, via_mode, '_twin' if twin else ''), cell
 
+
+
+def make_hist2(lf, sizes, twin=False):
+    """observe, operation, operation, observe: two splice-class operations with NO query in between, after every query was
+    asked once (so that anything the store memoises between queries is exposed: a cache keyed on something two operations
+    can restore -- length, block count -- goes stale exactly here)."""
+    sizes = tuple(sizes)
+    n = sum(sizes)
+    need = n_tokens_needed(lf, sizes)
+
+    def cell(a: int, b: int, k: int, a2: int, b2: int, k2: int) -> None:
+        assert 0 <= a <= b <= n and 0 <= k <= 1 and 0 <= k2 <= 1
+        assert 0 <= a2 <= b2 <= n + 1
+        set_load_factor(lf)
+        a = pick(a, 0, n)
+        b = pick(b, a, n)
+        k = pick(k, 0, 1)
+        with NoTracing():
+            toks = [SizedToken(1 if i % 3 == 1 else 0, i % 4, 't%d' % i) for i in range(need)]
+            store, ref = build_layout(lf, sizes, toks)
+            if len(ref) != n or [len(blk.tokens) for blk in store._blocks] != list(sizes):
+                return
+            api(store, ref)
+            ref1 = apply_op(store, ref, a, b, [SizedToken(0, 2, 'n%d' % j) for j in range(k)], 3)
+        n1 = n - (b - a) + k
+        if not (b2 <= n1):
+            return
+        a2 = pick(a2, 0, n1)
+        b2 = pick(b2, a2, n1)
+        k2 = pick(k2, 0, 1)
+        with NoTracing():
+            ref2 = apply_op(store, ref1, a2, b2, [SizedToken(1, 1, 'm%d' % j) for j in range(k2)], 3)
+            if twin:
+                raise Fail('twin reached the assertion point')
+            invariant(store, ref2)
+            api(store, ref2)
+
+    return 'hist2_%d_%s%s' % (lf, '_'.join(map(str, sizes)), '_twin' if twin else ''), cell
 
 
 TEXTS = ['', 'x', '\n', 'ab\ncd', 'q\n', '\n\nzz']
@@ -447,6 +486,12 @@ for _n in range(5, 12):
     _reg(make_from_tokens(4, _n, 2), {'C07': T, 'C08': T}, 900, 'from_tokens', 'lf=4, from_tokens(%d tokens) then one op, k<=2' % _n)
 _reg(make_from_tokens(2, 7, 1, twin=True), {'C07': Q}, 120, 'from_tokens', 'vacuity twin', twin=True, cost=1)
 _reg(make_step(2, (2, 3, 2), 2, 0, 'all', twin=True), {'C07': Q}, 120, 'step/structure', 'vacuity twin', twin=True, cost=1)
+for _s, _q in (((2, 3, 2), True), ((3, 2, 3), True), ((2, 2), False), ((3, 3, 3), False), ((2, 3, 3, 2), False)):
+    _reg(make_hist2(2, _s), {'C07': Q if _q else T, 'C08': Q if _q else T}, 900, 'hist2',
+         'lf=2 blocks=%s: every query, then TWO symbolic splices (any range, <=1 inserted) with no query in between, then every query' % (_s,), cost=300)
+for _s in ((2, 4, 3), (4, 5), (5, 2, 2)):
+    _reg(make_hist2(3, _s), {'C07': T, 'C08': T}, 1800, 'hist2', 'lf=3 blocks=%s: every query, two symbolic splices without a query in between, every query' % (_s,))
+_reg(make_hist2(2, (2, 3, 2), twin=True), {'C07': Q}, 120, 'hist2', 'vacuity twin', twin=True, cost=1)
 _reg(make_refusal(2), {'C07': Q, 'C19': Q}, 120, 'refusal', 'lf=2 n<=5: inserting a token already in the store', cost=5)
 for _lf in (2, 3):
     _reg(make_refusal_replace(_lf), {'C07': Q, 'C19': Q}, 600, 'refusal', 'lf=%d, n<=7: replace / splice of a symbolic non-empty range by a token living later in the same store or anywhere in another store '
